@@ -357,12 +357,14 @@ func healthErrKind(err error) string {
 	return "Other"
 }
 
-func healthStream(cfg *Config) *hx.Stats {
+func healthStream(cfg *Config) (res *hx.Stats) {
 	st := hx.NewStats("health", cfg.Seed)
 	rng := rand.New(rand.NewSource(cfg.Seed*31337 + 3))
 	w := hx.NewW(filepath.Join(cfg.Out, fmt.Sprintf("health-%d.trace", cfg.Seed)))
 	defer w.Close()
 	st.TraceFiles = append(st.TraceFiles, w.Path)
+	defer func() { atree.VerifSetThreshold(1024) }()
+	defer recoverAsViolation(st, w, &res)
 	nWorlds := int(10 * cfg.Scale)
 	distinct := map[string]bool{}
 	viol := func(prog int, what, sig string) {
